@@ -27,8 +27,8 @@ type Case struct {
 	Level   string     `json:"level"` // schema | realm | table
 }
 
-// describe flattens a change list into descriptors.
-func describe(prefix string, cs []schema.Change) []string {
+// Describe flattens a change list into descriptors.
+func Describe(prefix string, cs []schema.Change) []string {
 	var out []string
 	for _, c := range cs {
 		switch c := c.(type) {
@@ -40,9 +40,9 @@ func describe(prefix string, cs []schema.Change) []string {
 			if len(c.Changes) == 0 {
 				out = append(out, "ModifyTable("+c.T.Name+"){}")
 			}
-			out = append(out, describe(c.T.Name+":", c.Changes)...)
+			out = append(out, Describe(c.T.Name+":", c.Changes)...)
 		case *schema.ModifySchema:
-			out = append(out, describe("schema:", c.Changes)...)
+			out = append(out, Describe("schema:", c.Changes)...)
 		case *schema.AddColumn:
 			out = append(out, prefix+"AddColumn("+c.C.Name+")")
 		case *schema.DropColumn:
@@ -485,7 +485,7 @@ func checkCase(c Case) (Outcome, error) {
 	if err != nil {
 		return out, fmt.Errorf("%s diff (%s level) failed: %v\n  edits: %+v", c.Dialect, c.Level, err, c.Edits)
 	}
-	got := describe("", changes)
+	got := Describe("", changes)
 	want := out.Expected
 	if c.Level == "table" {
 		var w []string
